@@ -47,6 +47,16 @@ def check_C17(chk: Check, replay) -> None:
     args = [(os.path.join(chk.scratch, f"new{i}.json"), lo, hi, chk.seed + 1)
             for i, (lo, hi) in enumerate(_slices(n, 16))]
     infos = pmap(rd.gen_new_shard, args)
+    # two writers at a time, preempted at every switch point (the format must not depend on the schedule)
+    thorough = chk.tier == "thorough"
+    cargs = [(os.path.join(chk.scratch, f"conc{i}.json"), lo, hi, chk.seed + 5, 150 if thorough else 24,
+              30 if thorough else 6) for i, (lo, hi) in enumerate(_slices(64 if thorough else 16, 16))]
+    cinfos = pmap(rd.concurrent_new_shard, cargs)
+    infos = infos + [i for i in cinfos if i["cases"]]
+    n += sum(i["cases"] for i in cinfos)
+    chk.notes.append(f"{sum(i['runs'] for i in cinfos)} two-thread runs of write_batch pairs "
+                     f"({sum(i['switches'] for i in cinfos)} forced thread switches), "
+                     f"{sum(i['cases'] for i in cinfos)} distinct outputs validated")
     with open(infos[0]["path"]) as f:
         shard0 = json.load(f)
     donor = next(c for c in shard0["cases"] if c["wout"] == "ok")
@@ -77,7 +87,9 @@ def check_C17(chk: Check, replay) -> None:
                     raise Machinery(f"case {c['id']}: {f}")
                 if f:
                     chk.violation("+".join(sorted(f))[:90],
-                                  f"new batch {c['id']} ({len(c['recs'])} records): {sorted(f)} {c['werr']} "
+                                  f"new batch {c['id']} ({len(c['recs'])} records"
+                                  + (f", two threads, schedule {c['sched']}" if "sched" in c else "")
+                                  + f"): {sorted(f)} {c['werr']} "
                                   f"first record {json.dumps(c['recs'][0])[:300]}",
                                   {"kind": "newbatch", "p": c["p"], "recs": c["recs"]})
 
@@ -113,6 +125,14 @@ def check_C18(chk: Check, replay) -> None:
     out_args = [(ins[i]["path"], encoded[i], fixtures if i == 0 else [],
                  os.path.join(chk.scratch, f"read{i}.json"), chk.seed + 3, 400) for i in range(len(ins))]
     infos = pmap(rd.gen_read_shard, out_args)
+    thorough = chk.tier == "thorough"
+    cargs = [(ins[i]["path"], encoded[i], os.path.join(chk.scratch, f"cread{i}.json"), chk.seed + 6,
+              150 if thorough else 24, 30 if thorough else 6) for i in range(len(ins))]
+    cinfos = [i for i in pmap(rd.concurrent_read_shard, cargs)]
+    chk.notes.append(f"{sum(i['runs'] for i in cinfos)} two-thread runs of read_batch/write_batch pairs "
+                     f"({sum(i['switches'] for i in cinfos)} forced thread switches), "
+                     f"{sum(i['cases'] for i in cinfos)} distinct outcomes validated")
+    infos = infos + [i for i in cinfos if i["cases"]]
     with open(infos[1]["path"]) as f:
         shard = json.load(f)
     donor = next(c for c in shard["cases"] if c["rout"] == "ok")
